@@ -4,7 +4,8 @@
     and borrow checking) is rustc's behaviour: sampled by compiling the corpus, not proved. *)
 From Coq Require Import List String Ascii Bool.
 From Entrait Require Import Tok Syn Opts Split FnParams Convert Codegen Expand Proj Proj2 Proj3 Known Examples.
-From Entrait.Proofs Require Import Base Shapes NonVac PC03.
+From Entrait.Proofs Require Import Base Shapes NonVac PC03 PC04 PC03b.
+From Entrait Require Import ProjSide.
 Import ListNotations.
 Local Open Scope list_scope.
 
@@ -80,6 +81,44 @@ Example c03_refuted_in_known_class :
                 v_holds (view_C03 (mkCtx VEntrait [TId "Foo"] f3_input) items) = false.
 Proof. eexists. vm_compute. repeat split; reflexivity. Qed.
 Print Assumptions c03_refuted_in_known_class.
+
+(** Higher-ranked where predicates on the dependency (F23): every trait bound of [for<'x> D: Bound<'x>] reaches the
+    bounds the impl states on [Self] with the predicate's binder in front ([Self: for<'x> Bound<'x>]) — for every
+    generics list, any number of predicates and bounds. *)
+Theorem c03_hrtb_binder_kept : forall tg g name d tg' w b,
+  find_deps_generic_bounds tg g name = Some (d, tg') -> nodup_str (tparam_names g) = true ->
+  In w (where_items g) -> wp_is_type w = true -> wp_bounded w = BPath false false 1 name ->
+  In b (trait_bounds (wp_bounds w)) -> takes_binder b = true ->
+  In (wp_binder w ++ b) (deps_bounds_of d).
+Proof. exact hrtb_binder_kept. Qed.
+Print Assumptions c03_hrtb_binder_kept.
+
+(** ... a parenthesised bound carries it inside its parentheses; lifetime bounds, bounds with a binder of their own and
+    [use<..>] captures are copied unchanged; without a binder nothing changes. *)
+Theorem c03_binder_shapes :
+  (forall binder inner, takes_binder inner = true -> with_binder binder [TG Paren inner] = [TG Paren (binder ++ inner)]) /\
+  (forall binder b, takes_binder b = false -> (forall inner, b <> [TG Paren inner]) -> with_binder binder b = b) /\
+  (forall w, wp_binder w = [] -> pred_bounds w = trait_bounds (wp_bounds w)).
+Proof. exact (conj with_binder_paren (conj with_binder_other pred_bounds_no_binder)). Qed.
+Print Assumptions c03_binder_shapes.
+
+(** ... and the dependency's bounds are exactly its inline bounds followed, predicate by predicate, by these. *)
+Theorem c03_deps_bounds_exact : forall tg g name d tg',
+  find_deps_generic_bounds tg g name = Some (d, tg') -> nodup_str (tparam_names g) = true ->
+  deps_bounds_of d = flat_map (pcontrib name) (p_items (g_params g)) ++ flat_map (contrib name) (where_items g).
+Proof. exact deps_bounds_exact. Qed.
+Print Assumptions c03_deps_bounds_exact.
+
+(** [where for<'x> D: R<'x> + 'static + (P<'x>)] on the dependency [D] *)
+Example c03_hrtb_example :
+  pred_bounds (mkWP true (BPath false false 1 "D")
+                 [[TId "R"; pc "<"; pc "'"; TId "x"; pc ">"]; [pc "'"; TId "static"]; [TG Paren [TId "P"; pc "<"; pc "'"; TId "x"; pc ">"]]]
+                 [] [TId "for"; pc "<"; pc "'"; TId "x"; pc ">"])
+  = [[TId "for"; pc "<"; pc "'"; TId "x"; pc ">"; TId "R"; pc "<"; pc "'"; TId "x"; pc ">"];
+     [pc "'"; TId "static"];
+     [TG Paren [TId "for"; pc "<"; pc "'"; TId "x"; pc ">"; TId "P"; pc "<"; pc "'"; TId "x"; pc ">"]]]%string.
+Proof. vm_compute. reflexivity. Qed.
+Print Assumptions c03_hrtb_example.
 
 Example c03_nonvacuous :
   forallb (nonvacuous view_C03) [ex_fn; ex_fn_conc; ex_fn_nodeps; ex_fn_export; ex_mod] = true.
